@@ -53,6 +53,7 @@ pub enum Flavor {
 /// One application message. `over_tcp` selects the framing where it differs (RPC record mark).
 pub fn gen(app: App, flavor: Flavor, over_tcp: bool, rng: &mut Rng) -> Vec<u8> {
     match (app, flavor) {
+        (App::Http, Flavor::Valid) if over_tcp && rng.chance(1, 30) => http::gen_jumbo(rng),
         (App::Http, Flavor::Valid) => http::gen_valid(rng),
         (App::Http, Flavor::Fault) => http::gen_fault(rng),
         (App::Http, Flavor::ResponseTyped) => {
@@ -108,7 +109,12 @@ pub fn gen(app: App, flavor: Flavor, over_tcp: bool, rng: &mut Rng) -> Vec<u8> {
             v
         }
         (App::Rpc, Flavor::Valid) => {
-            let c = rpc::gen_call(rng);
+            let mut c = rpc::gen_call(rng);
+            if over_tcp && rng.chance(1, 30) {
+                // a call that does not fit one frame (arguments are opaque to the responder)
+                let n = *rng.pick(&[4000usize, 8192, 12000, 20000]);
+                c.args = rng.bytes(n);
+            }
             if over_tcp {
                 c.encode_tcp()
             } else {
